@@ -293,7 +293,7 @@ def gen_case(draw, tier):
 	if which == 'cli_info':
 		return {'kind': 'cli_info', 'payload': draw(P.payload(max_sigs=6))}
 	if which == 'roundtrip':
-		return {'kind': 'roundtrip', 'payload': draw(P.payload(allow_big=(tier == 'thorough'), allow_medium=True)), 'idx_seed': draw(st.integers(0, 2 ** 20)),
+		return {'kind': 'roundtrip', 'payload': draw(P.payload(allow_big=(tier == 'thorough'), allow_medium=True, medium_rate=(40 if tier == 'thorough' else 100))), 'idx_seed': draw(st.integers(0, 2 ** 20)),
 		        'path_as': draw(st.sampled_from(['str', 'Path'])), 'fname': draw(st.sampled_from(['.gs', '.h5', ' with space.gs', '-ünï.gs', '.GS', '']))}
 	ext = draw(st.sampled_from(['.gs', '.h5', '.txt', '.fasta', '']))
 	if which == 'foreign_bytes':
